@@ -1,7 +1,8 @@
 // C17: fixed workspaces of the correspondence leg c17.filter (generated once from scratch files; edit by hand).
 // w1 triggers diagnostic types 1-23, 26, 28, 29; w2 is shaped after the examples of docs/manual/config.md.
 // No global is defined in two files (C09 order dependence) and no file name is a substring / regexp match of
-// another one (the raw oracle ignores files by their literal names).
+// another one (the raw oracle ignores files by their literal names). w2 has the folders c+v (a valid regexp that does not
+// match its own text) and c++ (not a regexp at all), so that the literal strings.Contains half of every rule matters.
 package main
 
 var c17Workspaces = map[string]map[string]string{
@@ -113,6 +114,14 @@ end
 `,
 	},
 	"w2": {
+		"c++/lib2.lua": `local cp = 1
+cpfn = function(a) return a end
+cpfn(1, cpundef)
+`,
+		"c+v/inc.lua": `local cv = { k = 1, k = 2 }
+local cvu = 1
+goto cvlabel
+`,
 		"common/test.lua": `local cq = 1.5
 if cq == 1.5 then cq = cq end
 local cr = require("port.missing")
